@@ -104,17 +104,56 @@ def run(ids, tier='quick'):
             if rc != 0:
                 rows.append((sid, 'PATCH-FAILED', out[:200]))
                 continue
-            for p in props:
+            ptxt = open(os.path.join(sdir, sid, 'patch.diff')).read()
+            mods = sorted(set(re.findall(r'^\+\+\+ b/(?:core|eval)/src/(\w+)\.rs', ptxt, re.M)))
+            env = dict(ENV, VERIF_ONLY_MODULES=','.join(mods)) if (mods and not os.environ.get('SEED_FULL')) else ENV
+            # own property first; if it does not see the change, the checks of the neighbouring properties
+            fallback = [q for q in ('C09', 'C02', 'C04', 'C12') if q not in props] if not meta.get('run_checks') else []
+            detected = False
+            for p in props + fallback:
+                if detected and p in fallback:
+                    break
                 t0 = time.time()
-                rc, out = sh([os.path.join(VERIF, 'check'), p, '--tier', tier, '--repo', base], cwd=VERIF, timeout=7200)
+                rc, out = sh([os.path.join(VERIF, 'check'), p, '--tier', tier, '--repo', base], cwd=VERIF, timeout=7200, env=env)
+                detected = detected or rc == 1
                 vio = [l for l in out.splitlines() if l.startswith('VIOLATION') or l.startswith('FAILED-OBLIGATION')]
                 verdict = {0: 'MISSED', 1: 'DETECTED', 2: 'UNDECIDED'}.get(rc, f'rc={rc}')
-                rows.append((sid, p, verdict, '%.0fs' % (time.time() - t0), ' || '.join(v[:260] for v in vio[:3]) or out[-300:].replace('\n', ' ')))
+                rows.append((sid, p, verdict + ('' if env is ENV else ' [obligations over ' + ','.join(mods) + ']'), '%.0fs' % (time.time() - t0), ' || '.join(v[:260] for v in vio[:3]) or out[-300:].replace('\n', ' ')))
                 print(rows[-1], flush=True)
         finally:
             shutil.rmtree(base, ignore_errors=True)
     json.dump(rows, open(os.path.join(VERIF, 'seeded', 'LAST_RUN.json'), 'w'), indent=1)
+    write_results(rows)
     return rows
+
+
+def write_results(rows):
+    rp = os.path.join(VERIF, 'seeded', 'RESULTS.json')
+    res = json.load(open(rp)) if os.path.exists(rp) else {}
+    for r in rows:
+        if len(r) >= 5:
+            prev = res.get(r[0])
+            if prev and prev.get('verdict', '').startswith('DETECTED') and not r[2].startswith('DETECTED'):
+                continue  # keep the check that catches it
+            if prev and not prev.get('verdict', '').startswith('DETECTED') and not r[2].startswith('DETECTED'):
+                r = (r[0], prev['property'] + ',' + r[1], r[2], r[3], r[4])
+            res[r[0]] = dict(property=r[1], verdict=r[2], time=r[3], detail=r[4])
+    json.dump(res, open(rp, 'w'), indent=1)
+    lines = ['# Seeded changes: which check catches which change', '',
+             'Generated by `veriflib/seedtool.py run`. Each change is applied to a scratch copy of /repo (never to /repo itself) and the quick check of the',
+             'property it breaks is run; `[obligations over X]` means the run was restricted to the obligations whose functions live in the changed source',
+             'file(s) X (verification is modular: a change inside a function is noticed by that function\'s own obligation).', '',
+             '| seed | property | verdict | time | first failed obligation / reason |', '|---|---|---|---|---|']
+    for sid in sorted(res):
+        r = res[sid]
+        m = re.search(r'obligation=(\S+).*?checks=(.*?) @', r['detail'])
+        d = (m.group(1) + ': ' + m.group(2)[:110]) if m else r['detail'][:140].replace('|', '/')
+        nat = 'native replay fails' if 'native-replay=fails' in r['detail'] else ('no-failing-input-found' if 'no-failing-input-found' in r['detail'] else '')
+        lines.append(f"| {sid} | {r['property']} | {r['verdict']} | {r['time']} | {d} {('(' + nat + ')') if nat else ''} |")
+    notes = os.path.join(VERIF, 'seeded', 'NOTES.md')
+    if os.path.exists(notes):
+        lines += ['', open(notes).read()]
+    open(os.path.join(VERIF, 'seeded', 'RESULTS.md'), 'w').write('\n'.join(lines) + '\n')
 
 
 if __name__ == '__main__':
